@@ -64,6 +64,7 @@ fn real_main() {
                     out: arg(&args, "--out").unwrap_or("/verif/evidence/C17.json".into()),
                     replay_dir: arg(&args, "--replay-dir").unwrap_or("/verif/replays".into()),
                     sequences: arg(&args, "--programs").and_then(|s| s.parse().ok()).unwrap_or(if tier == "thorough" { 1_000_000 } else { 40_000 }),
+                    no_floor: args.iter().any(|a| a == "--no-floor"),
                 };
                 let (v, inc) = sysc::run_check(&cfg);
                 if v > 0 {
